@@ -705,7 +705,11 @@ func runCertificates(c *core.Ctx) []genCert {
 		pub  interface{}
 		rsa  bool
 	}
-	subjects := []subj{{"RSA-2048", &rsaKey.PublicKey, true}, {"P-256", &ecKeys["P-256"].pub, false},
+	// RSA subject keys with public exponents beyond 31 and 32 bits (legal; crypto/x509 reads them)
+	bigE1 := &rsa.PublicKey{N: rsaKey.N, E: 1<<31 + 1}
+	bigE2 := &rsa.PublicKey{N: rsaSigner.N, E: 1<<32 + 1}
+	smallE := &rsa.PublicKey{N: rsaKey.N, E: 3}
+	subjects := []subj{{"RSA-2048", &rsaKey.PublicKey, true}, {"RSA-2048-e=2^31+1", bigE1, true}, {"RSA-2048-e=2^32+1", bigE2, true}, {"RSA-2048-e=3", smallE, true}, {"P-256", &ecKeys["P-256"].pub, false},
 		{"P-384", &ecKeys["P-384"].pub, false}, {"P-521", &ecKeys["P-521"].pub, false}}
 	type signer struct {
 		name string
@@ -778,6 +782,9 @@ func runCertificates(c *core.Ctx) []genCert {
 		for gi, g := range signers {
 			for pi, p := range profiles {
 				if !c.Thorough() && (si+gi+pi)%3 != 0 && !(p.name == "attestation" && gi == 0) {
+					continue
+				}
+				if !c.Thorough() && strings.Contains(s.name, "-e=") && gi > 1 { // unusual exponents: two signers are enough on the quick tier
 					continue
 				}
 				serial++
